@@ -1,0 +1,122 @@
+//! Verification hooks. This module only exists when the crate is compiled with
+//! `--cfg scnr_verif`; it is never part of a normal build and changes no behaviour.
+//! It offers read-only views of compiled scanners and control over the process-wide
+//! scanner cache so that an external simulator can isolate and replay runs.
+
+use crate::internal::{compiled_dfa::CompiledDfa, SCANNER_CACHE};
+use crate::Scanner;
+
+/// Removes every entry from the process-wide scanner cache.
+pub fn clear_scanner_cache() {
+    SCANNER_CACHE.write().unwrap().verif_clear();
+}
+
+/// Returns the number of entries in the process-wide scanner cache.
+pub fn scanner_cache_len() -> usize {
+    SCANNER_CACHE.read().unwrap().verif_len()
+}
+
+/// A read-only copy of one compiled automaton.
+#[derive(Debug, Clone, PartialEq, Eq)]
+pub struct DfaDump {
+    /// Per state the list of transitions `(character class id, target state)` in stored order.
+    pub states: Vec<Vec<(u32, usize)>>,
+    /// Per state `Some(token type)` if the state is accepting.
+    pub accepting: Vec<Option<u32>>,
+    /// Token types in priority order (highest priority first).
+    pub terminal_ids: Vec<u32>,
+    /// The pattern strings stored for debugging purposes.
+    pub patterns: Vec<String>,
+    /// Lookaheads `(token type, is_positive, automaton)` sorted by token type.
+    pub lookaheads: Vec<(u32, bool, DfaDump)>,
+}
+
+/// A read-only copy of one compiled scanner mode.
+#[derive(Debug, Clone, PartialEq, Eq)]
+pub struct ModeDump {
+    /// The name of the mode.
+    pub name: String,
+    /// The compiled automaton of the mode.
+    pub dfa: DfaDump,
+    /// The transitions `(token type, target mode)` in stored order.
+    pub transitions: Vec<(usize, usize)>,
+}
+
+/// A read-only copy of a compiled scanner.
+#[derive(Debug, Clone, PartialEq, Eq)]
+pub struct ScannerDump {
+    /// The compiled modes.
+    pub modes: Vec<ModeDump>,
+    /// The registered character classes, rendered as regex syntax; the index is the class id.
+    pub classes: Vec<String>,
+    /// The current mode stored in the scanner handle.
+    pub current_mode: usize,
+}
+
+fn dump_dfa(dfa: &CompiledDfa) -> DfaDump {
+    let mut lookaheads: Vec<(u32, bool, DfaDump)> = dfa
+        .lookaheads
+        .iter()
+        .map(|(t, la)| (t.id(), la.is_positive, dump_dfa(&la.nfa)))
+        .collect();
+    lookaheads.sort_by_key(|l| l.0);
+    DfaDump {
+        states: dfa
+            .states
+            .iter()
+            .map(|s| {
+                s.transitions
+                    .iter()
+                    .map(|(cc, to)| (cc.id(), to.as_usize()))
+                    .collect()
+            })
+            .collect(),
+        accepting: dfa
+            .end_states
+            .iter()
+            .map(|(acc, t)| if *acc { Some(t.id()) } else { None })
+            .collect(),
+        terminal_ids: dfa.terminal_ids.iter().map(|t| t.id()).collect(),
+        patterns: dfa.patterns.clone(),
+        lookaheads,
+    }
+}
+
+/// Returns a read-only copy of the compiled automata of the given scanner.
+pub fn dump(scanner: &Scanner) -> ScannerDump {
+    use crate::ScannerModeSwitcher;
+    let inner = &scanner.inner;
+    ScannerDump {
+        modes: inner
+            .scanner_modes
+            .iter()
+            .map(|m| ModeDump {
+                name: m.name.clone(),
+                dfa: dump_dfa(&m.dfa),
+                transitions: m
+                    .transitions
+                    .iter()
+                    .map(|(t, s)| (t.as_usize(), s.as_usize()))
+                    .collect(),
+            })
+            .collect(),
+        classes: inner
+            .character_classes
+            .character_classes()
+            .iter()
+            .map(|cc| cc.ast().to_string())
+            .collect(),
+        current_mode: inner.current_mode(),
+    }
+}
+
+/// Evaluates whether the character class with the given id of this scanner contains `c`.
+/// Returns `None` if the class id is not registered.
+pub fn class_matches(scanner: &Scanner, class_id: u32, c: char) -> Option<bool> {
+    let inner = &scanner.inner;
+    if (class_id as usize) < inner.character_classes.len() {
+        Some((inner.match_char_class)(class_id.into(), c))
+    } else {
+        None
+    }
+}
